@@ -79,14 +79,26 @@ Theorem c14_rtsp_iff : forall md5raw b64dec c a hdr,
 Proof. exact rtsp_iff. Qed.
 Print Assumptions c14_rtsp_iff.
 
-(* a whole connection (any sequence of DESCRIBE requests, replays included): every
-   processed request is answered with the description exactly when its own header is valid *)
+(* a whole command connection - any sequence of DESCRIBE / ANNOUNCE requests, replays
+   included.  One command connection carries at most one play / publish session, so for
+   the i-th processed request:
+   - while the connection carries no session (no earlier request was admitted) a DESCRIBE
+     is answered with the description exactly when its own header is valid (challenge or
+     close otherwise), and an ANNOUNCE (not subject to RTSP authentication in lal) is
+     accepted exactly when the observer accepts the publisher;
+   - once a request was admitted every later DESCRIBE / ANNOUNCE closes the connection,
+     whatever it carries (refused for that reason, not for its credentials). *)
 Theorem c14_rtsp_session : forall md5raw b64dec c,
   rc_enable c = true -> ~ In colon (rc_user c) ->
-  forall hdrs a i r,
-    nth_error (describe_session md5raw b64dec c a hdrs) i = Some r ->
-    exists h, nth_error hdrs i = Some h /\ (r = DrSdp <-> valid_credentials md5raw b64dec c h).
-Proof. exact rtsp_session. Qed.
+  forall reqs a has i r,
+    nth_error (rtsp_conn md5raw b64dec c a has reqs) i = Some r ->
+    exists q, nth_error reqs i = Some q /\
+      if has || existsb is_admitted (firstn i (rtsp_conn md5raw b64dec c a has reqs)) then r = DrClosed
+      else match q with
+           | RqDescribe h => (r = DrSdp <-> valid_credentials md5raw b64dec c h)
+           | RqAnnounce ok => (r = DrAnnounced <-> ok = true)
+           end.
+Proof. exact rtsp_conn_spec. Qed.
 Print Assumptions c14_rtsp_session.
 
 (* valid ones are always accepted, client side: the Basic header lal's own client
